@@ -303,8 +303,11 @@ def _first_repo_frame(block):
     if not pick:
         return ('?', '?')
     fn = pick[0]
-    fn = re.sub(r'<[^<>]*>', '', fn)
-    fn = re.sub(r'<[^<>]*>', '', fn)
+    for _ in range(12):
+        fn2 = re.sub(r'<[^<>]*>', '', fn)
+        if fn2 == fn:
+            break
+        fn = fn2
     fn = re.sub(r'\(.*$', '', fn)
     fn = fn.split('::')[-1].strip() or fn
     return (os.path.basename(pick[1]), fn)
